@@ -89,7 +89,8 @@ EvRet ==
   /\ Rec.e = "ret"
   /\ V({<<"BoundedRegistrySends", nreg[Rec.id] <= 3>>,
         <<"BoundedTokenFetches", ntok[Rec.id] <= 1>>,
-        <<"Succeeds", ~Rec.err /\ Rec.status # 401>>})
+        \* (a request whose own context deadline passed while it waited is entitled to its error)
+        <<"Succeeds", Rec.deadline \/ (~Rec.err /\ Rec.status # 401)>>})
   /\ UNCHANGED <<cfg, realm, dos, nreg, ntok, phaseTok, challenged>>
 
 EvHang == Rec.e = "hang" /\ V({<<"NoHang", FALSE>>}) /\ UNCHANGED <<cfg, realm, dos, nreg, ntok, phaseTok, challenged>>
